@@ -494,7 +494,10 @@ impl Pair {
         if pop > 0 && pop % 64 == 0 {
             edges.hit("state where bits_used is a multiple of 64");
         }
-        if !out.is_empty() || !first_visit(&self.key) {
+        // an empty-form image carries no bit array: it says nothing about the in-memory bits,
+        // so the live object is always queried there
+        let seen_before = !first_visit(&self.key);
+        if !out.is_empty() || (seen_before && !empty_img) {
             dedup_keys(&mut out);
             return (out, img);
         }
